@@ -256,6 +256,10 @@ def run_code_with_cache(
     """
     use_cache = should_use_cache(execer, mode)
     filename = code_cache_name(code)
+    if mode != "exec":
+        # the same text compiles to different code in "single"/"eval" mode
+        # (``-c`` uses "single", a script on stdin "exec"): separate entries
+        filename = f"{filename}-{mode}"
     cachefname = get_cache_filename(filename, code=True)
     run_cached = False
     if use_cache:
